@@ -85,6 +85,17 @@ func sniff(iface, proto, path string) {
 			continue
 		}
 		et := uint16(f[12])<<8 | uint16(f[13])
+		if proto == "any" {
+			// every frame that arrives: ethertype + (IPv4 destination | ARP target)
+			k := []byte{f[12], f[13], 0, 0, 0, 0}
+			if et == 0x0800 {
+				copy(k[2:], f[30:34])
+			} else if et == 0x0806 {
+				copy(k[2:], f[38:42])
+			}
+			keys = append(keys, k)
+			continue
+		}
 		switch {
 		case proto == "arp" && et == 0x0806 && f[20] == 0 && f[21] == 1:
 			keys = append(keys, []byte{f[38], f[39], f[40], f[41], 0, 0})
@@ -296,9 +307,41 @@ func e2eCases(r *hlib.SplitMix64, n int) []e2eCase {
 	return cs[:n]
 }
 
-func mainE2E(w *hlib.Out, sx string, seed int64, n int) {
+// refusedCases: every command with a target that is not IPv4: nothing may reach the wire, exit status != 0
+func refusedCases(r *hlib.SplitMix64, n int) []e2eCase {
+	os.WriteFile(tmpDir+"/empty.cache", nil, 0o644)
+	targets := []string{"::1", "::/96", "2001:db8::/120", "::ffff:10.77.1.2", "::ffff:10.77.1.0/120", "fe80::1", "::", "2001:db8::1", "::10.77.1.2", "10.77.1.300", "abc"}
+	cmds := [][]string{
+		{"arp", "-i", "v0", "--exit-delay", "100ms"},
+		{"icmp", "-i", "v0", "--exit-delay", "100ms", "--gwmac", "02:00:00:00:00:02", "-a", tmpDir + "/empty.cache"},
+		{"tcp", "-i", "v0", "--exit-delay", "100ms", "--gwmac", "02:00:00:00:00:02", "-a", tmpDir + "/empty.cache", "-p", "80"},
+		{"udp", "-i", "v0", "--exit-delay", "100ms", "--gwmac", "02:00:00:00:00:02", "-a", tmpDir + "/empty.cache", "-p", "53"},
+		{"tcp", "fin", "-i", "v0", "--exit-delay", "100ms", "--gwmac", "02:00:00:00:00:02", "-a", tmpDir + "/empty.cache", "-p", "80"},
+		{"socks", "--exit-delay", "100ms", "-p", "1080", "-t", "200ms"},
+		{"elastic", "--exit-delay", "100ms", "-p", "9200", "-t", "200ms"},
+		{"docker", "--exit-delay", "100ms", "-p", "2375", "-t", "200ms"},
+	}
+	var cs []e2eCase
+	// every target once, commands in rotation; then random pairs
+	for i := 0; len(cs) < n; i++ {
+		t := targets[i%len(targets)]
+		c := cmds[i%len(cmds)]
+		if i >= len(targets) {
+			t, c = targets[r.Intn(len(targets))], cmds[r.Intn(len(cmds))]
+		}
+		argv := append(append([]string{}, c...), t)
+		cs = append(cs, e2eCase{Kind: "e2e", Class: "refuse:" + c[0], Proto: "any", Argv: argv, Seed: int64(i)})
+	}
+	return cs
+}
+
+func mainE2E(w *hlib.Out, sx string, seed int64, n int, set string) {
 	r := hlib.NewRand(seed)
-	for i, c := range e2eCases(r, n) {
+	cases := e2eCases
+	if set == "refuse" {
+		cases = refusedCases
+	}
+	for i, c := range cases(r, n) {
 		c := c
 		runE2E(sx, &c, i)
 		sort.Slice(c.Want, func(a, b int) bool {
